@@ -1,12 +1,15 @@
 package harness
 
 import (
+	"bytes"
+	"compress/gzip"
 	"fmt"
 	"os"
 	"path/filepath"
 	"strings"
 	"time"
 
+	"github.com/DataDog/zstd"
 	"github.com/mimecast/dtail/internal/config"
 	"github.com/mimecast/dtail/internal/lcontext"
 	"github.com/mimecast/dtail/internal/source"
@@ -40,6 +43,11 @@ type c02Params struct {
 	// Servers > 1: the session names that many servers (each an in-process server with its own host name); the
 	// output is labelled (non-plain) so that every line can be attributed to its server
 	Servers int
+	// Enc: the files are compressed ("gz", "zst"); NoNL: the last line of every file has no terminating newline;
+	// PaceMs: a uniformly slow consumer (that long before every read from the client's stdout pipe)
+	Enc    string
+	NoNL   bool
+	PaceMs int
 }
 
 func (p c02Params) String() string {
@@ -52,6 +60,15 @@ func (p c02Params) String() string {
 	}
 	if p.Servers > 1 {
 		s += fmt.Sprintf(" servers=%d", p.Servers)
+	}
+	if p.Enc != "" {
+		s += " compressed=" + p.Enc
+	}
+	if p.NoNL {
+		s += " last-line-unterminated"
+	}
+	if p.PaceMs > 0 {
+		s += fmt.Sprintf(" consumer-pace=%dms-per-read", p.PaceMs)
 	}
 	return s
 }
@@ -69,9 +86,28 @@ func c02Setup(p c02Params) (paths []string, dir string) {
 	if p.Refused {
 		dir += "-refused"
 	}
+	if p.Enc != "" || p.NoNL {
+		dir += fmt.Sprintf("-%s-%v", p.Enc, p.NoNL)
+	}
 	dir = strings.NewReplacer(" ", "_", "[", "", "]", "").Replace(dir)
 	for f, n := range p.Files {
-		paths = append(paths, WriteScratch(fmt.Sprintf("%s/f%d.log", dir, f), strings.Join(c02FileLines(f, n), "\n")+map[bool]string{true: "\n", false: ""}[n > 0]))
+		content := strings.Join(c02FileLines(f, n), "\n") + map[bool]string{true: "\n", false: ""}[n > 0 && !p.NoNL]
+		name := fmt.Sprintf("%s/f%d.log", dir, f)
+		switch p.Enc {
+		case "gz":
+			var b bytes.Buffer
+			w := gzip.NewWriter(&b)
+			w.Write([]byte(content))
+			w.Close()
+			content, name = b.String(), name+".gz"
+		case "zst":
+			d, err := zstd.Compress(nil, []byte(content))
+			if err != nil {
+				panic(err)
+			}
+			content, name = string(d), name+".zst"
+		}
+		paths = append(paths, WriteScratch(name, content))
 	}
 	if p.Refused {
 		base := Scratch() + "/" + dir
@@ -90,6 +126,9 @@ func c02Body(p c02Params, paths []string, dir string) (string, string) {
 	args.LogLevel = "error"
 	if p.Glob {
 		args.What = dir + "/f*.log"
+		if p.Enc != "" {
+			args.What += "." + p.Enc
+		}
 		switch p.Unclean {
 		case 1:
 			args.What = dir + "//f*.log"
@@ -125,6 +164,19 @@ func c02Body(p c02Params, paths []string, dir string) (string, string) {
 			vos.S.ReadDelayPrefix = Scratch() + "/c02/"
 		}
 	}}
+	if p.PaceMs > 0 {
+		o.PipeCap = 0
+		o.Consumer = func(pipe *vrt.Chan[string], sink *vrt.StdoutSink) {
+			for {
+				vrt.Sleep("consumer-pace", time.Duration(p.PaceMs)*time.Millisecond)
+				s, ok := pipe.Recv2("consumer")
+				if !ok {
+					return
+				}
+				sink.Buf.WriteString(s)
+			}
+		}
+	}
 	if p.Stall > 0 {
 		o.PipeCap = 0
 		o.Consumer = func(pipe *vrt.Chan[string], sink *vrt.StdoutSink) {
@@ -298,6 +350,8 @@ func c02Sig(msg string, v *explore.Violation) string {
 			return "lines-lost"
 		}
 		return "lines-lost-with-stalled-consumer"
+	case strings.Contains(msg, "unexpected output line"):
+		return "error-message-instead-of-lines"
 	}
 	return "other"
 }
@@ -383,6 +437,18 @@ func c02ParamSets(tier string) (ps []c02Params, d int) {
 			{Kind: "cat", Files: []int{3000}, CatLimit: 2, Stall: 4 * time.Second, StallAt: 150, D: -1},
 			{Kind: "grep", Files: []int{1500, 700}, Glob: true, CatLimit: 1, Max: 1200, After: 2, Stall: 2 * time.Second, StallAt: 50, D: -1},
 			{Kind: "cat", Files: []int{1, 1, 1}, Glob: true, CatLimit: 1, D: 1},
+			// compressed files and files whose last line is unterminated, read slowly enough (slow disk / uniformly slow
+			// consumer holding the reader back behind its full queues) that the end of the file is reached while the
+			// reader's periodic (3 s) checks are due
+			{Kind: "cat", Files: []int{2}, CatLimit: 2, ReadDelayMs: 3100, Enc: "gz", NoNL: true, D: 1},
+			{Kind: "cat", Files: []int{3}, Glob: true, CatLimit: 1, ReadDelayMs: 1600, Enc: "zst", NoNL: true, D: 1}, // (one file: in plain mode an unterminated last line is followed directly by the next file's first)
+			{Kind: "grep", Files: []int{3}, CatLimit: 2, ReadDelayMs: 3100, NoNL: true, D: 1},
+			{Kind: "cat", Files: []int{900}, CatLimit: 2, PaceMs: 10, D: -1},
+			{Kind: "cat", Files: []int{900}, CatLimit: 2, PaceMs: 10, NoNL: true, D: -1},
+			{Kind: "cat", Files: []int{900}, CatLimit: 2, PaceMs: 10, Enc: "gz", D: -1},
+			{Kind: "cat", Files: []int{900}, CatLimit: 2, PaceMs: 10, Enc: "gz", NoNL: true, D: -1},
+			{Kind: "cat", Files: []int{900}, CatLimit: 2, PaceMs: 10, Enc: "zst", NoNL: true, D: -1},
+			{Kind: "grep", Files: []int{1000}, Glob: true, CatLimit: 1, PaceMs: 12, Enc: "gz", NoNL: true, D: -1},
 			{Kind: "cat", Files: []int{2}, CatLimit: 2, Servers: 2, D: 1},
 			{Kind: "grep", Files: []int{1, 1}, Glob: true, CatLimit: 1, Max: 1, Servers: 3, D: 1},
 			{Kind: "cat", Files: []int{2, 1}, Glob: true, CatLimit: 2, Unclean: 1, D: 1},
@@ -424,7 +490,7 @@ func init() {
 		Level: "model_checking",
 		Rule: "stateless exploration of all schedules within a deviation bound (quick 1, thorough 2; deviations = preemption, non-first ready select case, demotion of a goroutine) of one complete dcat/dgrep session: " +
 			"the real client main body, serverless connector, server handler, read commands, readers and client handler; sessions (with one server, and with 2-3 servers in labelled output) of 1-3 files (and one of 5 files: more than twice the limit queue) with 0-2 lines (plus 100/101 lines around the queue capacity and, on the canonical schedule, files of 700-3000 lines with a stalling consumer), one command per file or one glob (also spelled with '//', '/./', 'x/../'), " +
-			"cat limit 1-2, grep with max/after, globs that also match a directory, a dangling link and a file the permission rules deny, consumer eager or stalled 50 ms..6 s before the k-th write; oracle: per file exactly its selected lines once and in order, exit status 0, termination before the horizon; " +
+			"cat limit 1-2, grep with max/after, globs that also match a directory, a dangling link and a file the permission rules deny, consumer eager, stalled 50 ms..6 s before the k-th write, or uniformly slow (10 ms per read over 900-line files, plain / gzip / zstd, last line terminated or not: the reader reaches the end of the file seconds after it started, behind its full queues); slow disks (1.1-5.2 s per read(2)) also on compressed files with an unterminated last line; oracle: per file exactly its selected lines once and in order, exit status 0, termination before the horizon; " +
 			"plus a 4-file session whose command stream is delivered in segments of 1..32768 bytes through a re-used transport buffer (as an SSH channel does); distinct = distinct (scenario, stdout+status) outcomes",
 		Assumptions: []string{
 			"code between two synchronisation operations is atomic (data-race freedom; checked by the free-running -race pass)",
